@@ -20,7 +20,7 @@ class C08(vlib.Check):
             'size-1, size, size+1, SSIZE_MAX, ...} x count in {0, 1, size, size+1, SIZE_MAX-start-1 .. SIZE_MAX, 2^63-1 .. 2^63+1}; all '
             '(start,count) in a window around [-size-2, size+2] for sizes <= 5; left/right with n in 0..2*size+1 and at the limits; '
             'trim_left/trim_right/trim over all subjects of length <= 5 (thorough 6) over {space, a, NUL, x} x 5 charsets + default; '
-            'before/after: all subjects of length <= 4 (quick; thorough 6) over {a,-,NUL} and {a,A,-} x separators of length 0..3 '
+            'before/after: all subjects of length <= 5 (quick; thorough 6) over {a,-,NUL} and {a,A,-} x separators of length 0..3 '
             '(self-overlapping, longer than subject, with NUL for the char / ST::string forms) x 4 ops x forms c/z/u/s x both case modes, '
             'plus a seeded sample of longer subjects (up to 300 bytes) with separators cut from the subject. '
             'non-trivial = non-empty subject; distinct = distinct case line')
@@ -73,7 +73,7 @@ class C08(vlib.Check):
             cset = rng.choice(['=', '20', '090a', '80200a', '6120'])
             yield '%s %s %s' % (rng.choice(['trim_left', 'trim_right', 'trim']), hx(s), cset)
         # ---- before / after, exhaustive small
-        maxlen = 6 if thorough else 4
+        maxlen = 6 if thorough else 5
         subj_cs = list(words(b'a-\x00', maxlen))
         subj_ci = list(words(b'aA-', maxlen))
         for s in subj_cs:
